@@ -10,7 +10,7 @@ From Coq Require Import ZArith List Bool.
 Import ListNotations.
 Require Import Grist.Model.Renames Grist.Model.RenamesPrint.
 Require Import Grist.Proofs.Renames_proofs Grist.Proofs.Renames_fresh_proofs Grist.Proofs.Renames_text_proofs.
-Require Import Grist.Proofs.Renames_print_proofs Grist.Proofs.Renames_check_proofs.
+Require Import Grist.Proofs.Renames_print_proofs Grist.Proofs.Renames_check_proofs Grist.Proofs.Renames_doc_proofs.
 Open Scope Z_scope.
 
 (* ---- the property for an engine that ACCEPTS every rename, and why some renames must be rejected ----------------- *)
@@ -98,7 +98,7 @@ Theorem C16_rename_table_preserves_eval : forall fuel d a b self row f,
 Proof.
   intros. apply rename_table_preserves_eval_proof; try assumption.
   - intros. apply std_prim1_nat.
-  - intros. apply std_prim2_nat.
+  - intros. apply std_prim2_nat. apply swap_inj.
 Qed.
 
 Theorem C16_rename_table_observed : forall fuel d a b self row f,
@@ -107,6 +107,93 @@ Theorem C16_rename_table_observed : forall fuel d a b self row f,
   obs_res (evalS fuel (rename_doc (ren1 a b) id_col d) (ren1 a b self) row (ren (ren1 a b) id_col d self [] f))
   = obs_res (evalS fuel d self row f).
 Proof. intros. rewrite C16_rename_table_preserves_eval by assumption. apply obs_res_rn. Qed.
+
+(* ---- the whole document, and histories of renames -------------------------------------------------------------- *)
+(* After rename_doc EVERY cell (every table, row, column; data or formula) evaluates as before, addressed by its new
+   table and column names.  rename_ok: injective on table names and per table on column names, builtins blind to table
+   names, group-formula columns keep / do not get the name `group`. *)
+Theorem C16_whole_document : forall prim1 prim2 rt rc d,
+  rename_ok prim1 prim2 rt rc d -> doc_wf d ->
+  forall fuel t r c,
+    cell prim1 prim2 (rename_doc rt rc d) fuel (rt t) r (rc t c) = rn_res rt (cell prim1 prim2 d fuel t r c).
+Proof. exact whole_document_proof. Qed.
+
+Theorem C16_rename_column_whole_document : forall prim1 prim2 d T a b,
+  doc_wf d -> group_ok d T a b -> fresh_col d T b ->
+  forall fuel t r c, (t, c) <> (T, b) ->
+    cell prim1 prim2 (rename_doc id_tab (col1 T a b) d) fuel t r (col1 T a b t c) = cell prim1 prim2 d fuel t r c.
+Proof. exact rename_column_whole_document_proof. Qed.
+
+Theorem C16_rename_table_whole_document : forall d a b,
+  doc_wf d -> fresh_tab d b ->
+  forall fuel t r c, t <> b ->
+    cell std_prim1 std_prim2 (rename_doc (ren1 a b) id_col d) fuel (ren1 a b t) r c
+    = rn_res (swap a b) (cell std_prim1 std_prim2 d fuel t r c).
+Proof. exact rename_table_whole_document_proof. Qed.
+
+(* RenameTable AS THE ENGINE PERFORMS IT: reference columns to the table are retyped to Int and back, which converts
+   their cells (engine_rename_table = retype_doc, then rename_doc).  With no alternative text in those columns it is
+   the plain rename, and every cell is unchanged ... *)
+Theorem C16_engine_rename_table : forall d a b,
+  no_alt_text d a -> doc_wf d -> fresh_tab d b ->
+  forall fuel t r c, t <> b ->
+    cell std_prim1 std_prim2 (engine_rename_table a b d) fuel (ren1 a b t) r c
+    = rn_res (swap a b) (cell std_prim1 std_prim2 d fuel t r c).
+Proof. exact engine_rename_table_proof. Qed.
+
+(* ... and the hypothesis is needed (known finding rename_table_reinterprets_alt_text_in_reference_columns): the
+   alternative text "2" in a Ref:Uu cell reads as the text "2" before RenameTable Uu -> Zz and as the record Zz[2] after *)
+Definition alt_doc : doc :=
+  [ mktab nT [mkcol nR (CRef nU) None [(1, VStr [50])]; mkcol nF CPlain (Some (EDollar nR)) []] [1] [];
+    mktab nU [mkcol nK CPlain None [(1, VStr [97]); (2, VStr [98])]] [1; 2] [] ].
+Theorem C16_refuted_alt_text_reinterpreted :
+  doc_wf alt_doc /\ fresh_tab alt_doc nZ /\ no_alt_textb alt_doc nU = false /\
+  cell std_prim1 std_prim2 alt_doc 5 nT 1 nF = ROk (VStr [50]) /\
+  cell std_prim1 std_prim2 (engine_rename_table nU nZ alt_doc) 5 nT 1 nF = ROk (VRec nZ 2) /\
+  cell std_prim1 std_prim2 (rename_doc (ren1 nU nZ) id_col alt_doc) 5 nT 1 nF = ROk (VStr [50]).
+Proof.
+  split; [apply doc_wfb_sound; vm_compute; reflexivity|]. split; [apply fresh_tabb_sound; vm_compute; reflexivity|].
+  repeat split; vm_compute; reflexivity.
+Qed.
+
+Example C16_engine_rename_table_example :
+  no_alt_text ex_doc nU /\ doc_wf ex_doc /\ fresh_tab ex_doc nZ /\
+  cell std_prim1 std_prim2 (engine_rename_table nU nZ ex_doc) 6 nT 1 nB = ROk (VInt 40).
+Proof.
+  split; [exact (no_alt_textb_sound ex_doc nU eq_refl)|]. split; [apply doc_wfb_sound; vm_compute; reflexivity|].
+  split; [apply fresh_tabb_sound; vm_compute; reflexivity|]. vm_compute. reflexivity.
+Qed.
+
+(* A history: any sequence of renames, each acceptable for the document as it is when applied.  Every cell, addressed
+   through the history (tab_after / col_after), has its original value (records carrying the final table names). *)
+Theorem C16_history : forall prim1 prim2 rs d,
+  history_ok prim1 prim2 rs d -> doc_wf d ->
+  forall fuel t r c,
+    cell prim1 prim2 (rename_all rs d) fuel (tab_after rs t) r (col_after rs t c)
+    = res_after rs (cell prim1 prim2 d fuel t r c).
+Proof. exact history_proof. Qed.
+
+Theorem C16_history_observed : forall prim1 prim2 rs d,
+  history_ok prim1 prim2 rs d -> doc_wf d ->
+  forall fuel t r c,
+    obs_res (cell prim1 prim2 (rename_all rs d) fuel (tab_after rs t) r (col_after rs t c))
+    = obs_res (cell prim1 prim2 d fuel t r c).
+Proof. intros. rewrite C16_history by assumption. apply obs_res_after. Qed.
+
+(* non-vacuity: V -> Z in Uu, then table Uu -> Zz (named nZ too), then A -> group in Tt *)
+Example C16_history_example :
+  let rs := [(id_tab, colS nU nV nZ); (swap nU nZ, id_col); (id_tab, colS nT nA GROUP)] in
+  history_ok std_prim1 std_prim2 rs ex_doc /\ doc_wf ex_doc /\
+  tab_after rs nT = nT /\ col_after rs nT nB = nB /\ col_after rs nU nV = nZ /\ tab_after rs nU = nZ /\
+  cell std_prim1 std_prim2 ex_doc 6 nT 1 nB = ROk (VInt 40) /\
+  cell std_prim1 std_prim2 (rename_all rs ex_doc) 6 nT 1 nB = ROk (VInt 40).
+Proof.
+  cbv zeta. split.
+  - split; [apply rename_ok_column; apply group_okb_sound; vm_compute; reflexivity|].
+    split; [apply rename_ok_table|].
+    split; [apply rename_ok_column; apply group_okb_sound; vm_compute; reflexivity | exact I].
+  - split; [apply doc_wfb_sound; vm_compute; reflexivity|]. repeat split; vm_compute; reflexivity.
+Qed.
 
 (* non-vacuity: the example document and its formulas satisfy every hypothesis; V -> Z really rewrites F and B *)
 Example C16_rename_preserves_eval_example :
